@@ -47,6 +47,13 @@ THEOREMS (all proved for ALL configurations and ALL schedules; Print Assumptions
                         worker descriptor is closed
   C09_waits_untimed     acquire's two wait_for calls carry no timeout (Gen: acquire_wait_timeouts = [None; None],
                         re-extracted on every run) and a thread in condition.wait() has no step of its own in the LTS
+  C09_program_order_matches_source   the event codes of the steps a worker takes for one task, computed from `step`,
+                        equal the operation list extracted on this run from _write_one (parallel writer) and from
+                        the loop body of _write_serial (serial writer), callback expanded by _locked_callback's
+                        outer lock when sharded (Gen: parallel_task_ops / serial_task_ops / outer_callback_ops)
+  C09_lock_order        one acquisition order for all writers: inner cb lock < outer cb lock < tensor lock < budget;
+                        a thread waiting for a resource owns only lower-ranked ones and no reservation
+  C09_write_under_budget  every evaluation happens under the oversized slot or need(t) bytes counted in in_flight
   Nothing is partial.  Examples in Property.v replay schedules recorded from the implementation (a sleeping
   thread, an oversized grant, a shared tensor object, an error run, a failed open of a worker descriptor).
 
@@ -57,6 +64,21 @@ because unload_from_model never externalises zero-byte initializers.  hc["entry"
 in the list; reference, cooperative runs, soak, shrinker and replay all go through invoke_save().  Caught by the
 oracle (callback exactly once per tensor) with a 2-tensor replay; the LTS has one task per tensor, so the trace
 check rejects the run as well.
+
+SECOND DEEPENING ROUND.  (1) generate() linearises the synchronisation operations of one task from the source
+(_write_one, _write_serial's loop body, _write_tensor, _write_tensor_with_budget_at, _locked_callback._wrapped; fails
+closed on any other statement that may synchronise) and also pins: the parallel writer's budget is never None, one
+job per tensor (range(len(self._tensors)) / every tensor in the serial loop), _write_serial passes self._budget, the
+shard drivers pass the ONE shared budget and lock table and wrap the callback, convert_tensors_to_external and
+_write_external_data forward the budget.  C09_program_order_matches_source then ties the hand-written pc order of
+the LTS to that list by vm_compute; r5m1 (budget before tensor lock in _write_one) and r5m2 (serial writer drops
+the budget for single-tensor files) break this obligation in addition to their replays.  (2) zero-length tensors
+and the convert / write entry points need no hypothesis in any theorem (tasks = all tensors); Example
+C09_example_zero_length replays an implementation run.  (3) aligned offsets: hc["align"], generator mode "aligned"
+(files of several KiB with gaps, single file and sharded, all three entry points); for these runs Coq compares the
+model's file LENGTHS with the implementation's and checks every tensor's range of the model file (the oracle still
+compares the bytes with the serial save).  (4) generator mode "mixed": serial and parallel inner writers sharing a
+tensor object under a one-tensor budget (the configuration r5m1 needs).  Still oracle-only: callback=None.
 
 DEEPENING ROUND (moved from oracle-only into model + theorem + trace check): _thread_file() is now a step of the LTS
 (POpen: the first time a worker gets past the callback it opens its r+b descriptor; attempt k fails with OSError
@@ -1660,6 +1682,21 @@ def gen_hc(rng, size="small", fail=None):
         return {"tensors": tensors, "max_workers": mw, "cap": cap,
                 "max_shard": rng.choice([None, 4, 6]) if entry == "write" else None, "chunk": None,
                 "tseed": rng.randrange(1 << 30), "entry": entry}
+    if size == "mixed":
+        # sharded save with BOTH kinds of inner writer: full shards (parallel inner writer) and a last shard with a
+        # single tensor (serial inner writer) whose tensor OBJECT is also in a parallel shard; budget of one tensor
+        full = rng.choice([1, 1, 2])
+        u = rng.choice([2, 3, 4])
+        n = 2 * full + 1
+        tensors = [{"len": u, "obj": i, "ext": False, "cbfail": False, "wfail": False} for i in range(n)]
+        if rng.random() < 0.8:
+            tensors[-1]["obj"] = rng.randrange(n - 1)
+        if fail if fail is not None else rng.random() < 0.2:
+            _inject_failure(rng, tensors, rng.randrange(n))
+        shards = full + 1
+        return {"tensors": tensors, "max_workers": 3 * shards + rng.choice([0, 1]), "cap": rng.choice([u, u, u + 1, 2 * u]),
+                "max_shard": 2 * u, "chunk": None, "tseed": rng.randrange(1 << 30),
+                "entry": rng.choice(["unload", "write"])}
     if size == "aligned":
         # aligned offsets: tensors longer than the threshold start at multiples of 4096 (gaps in the file; the
         # parallel writer preallocates, the serial one seeks past EOF); single file or shards
@@ -2089,7 +2126,7 @@ def run(ck) -> None:
     for i in range(n_cfg):
         if col.failures and len(col.failures) > 3:
             break
-        hc = gen_hc(rng, ["large", "small", "twolevel", "oneshard", "zerolen", "small", "extchunk", "twolevel", "aligned", "oneshard"][i % 10])
+        hc = gen_hc(rng, ["large", "small", "twolevel", "oneshard", "zerolen", "mixed", "extchunk", "twolevel", "aligned", "oneshard"][i % 10])
         try:
             plan = col.plan(hc)
         except Exception as e:  # noqa: BLE001
@@ -2141,7 +2178,7 @@ def run(ck) -> None:
     if col.failures:
         soak_cfgs = 0              # already failing under a replayable schedule: report that
     for i in range(soak_cfgs):
-        hc = gen_hc(rng, ["twolevel", "large", "oneshard", "extchunk", "zerolen", "aligned"][i % 6])
+        hc = gen_hc(rng, ["twolevel", "large", "oneshard", "extchunk", "zerolen", "aligned", "mixed"][i % 7])
         plan = col.plan(hc)
         bad = soak(hc, plan, col.wd, rng, soak_runs)
         ck.count(soak_runs)
@@ -2183,7 +2220,7 @@ def search(ck, col) -> None:
     i = 0
     while time.time() < deadline:
         i += 1
-        hc = gen_hc(rng, rng.choice(["tiny", "small", "small", "large", "twolevel", "oneshard", "extchunk", "zerolen", "aligned"]))
+        hc = gen_hc(rng, rng.choice(["tiny", "small", "small", "large", "twolevel", "oneshard", "extchunk", "zerolen", "aligned", "mixed", "mixed"]))
         try:
             plan = col.plan(hc)
         except Exception:  # noqa: BLE001
